@@ -13,6 +13,11 @@
 #include "private.h"
 #include "tuklib_integer.h"
 
+#if defined(TUKAANI_PROJECT_XZ_VERIF) && !defined(VERIF_CODER_NORMAL_LOOP_CONTRACT)
+// Verification hook: /verif's harness defines this to a CBMC loop contract.
+#	define VERIF_CODER_NORMAL_LOOP_CONTRACT
+#endif
+
 
 /// Return value type for coder_init().
 enum coder_init_ret {
@@ -1189,7 +1194,11 @@ coder_normal(file_pair *pair)
 	strm.next_out = out_buf.u8;
 	strm.avail_out = IO_BUFFER_SIZE;
 
+#ifdef TUKAANI_PROJECT_XZ_VERIF
+	while (!user_abort) VERIF_CODER_NORMAL_LOOP_CONTRACT {
+#else
 	while (!user_abort) {
+#endif
 		// Fill the input buffer if it is empty and we aren't
 		// flushing or finishing.
 		if (strm.avail_in == 0 && action == LZMA_RUN) {
